@@ -158,7 +158,10 @@ def check_unsigned_sub(ctx, prog, R):
                      "unsigned subtraction `%s` in %s has no dominating guard, constant lower bound or triage entry: it underflows "
                      "(debug: panic, release: wrap) when the left side is smaller" % (expr, fn.id), where=where(fn, b),
                      expected="a dominating comparison establishing lhs >= rhs on the same operands")
-    ctx.floor("unsigned-sub", "unsigned subtraction sites in the lib", n, 27 if "vf_vu64" in prog.features.get("abyssiniandb", []) else 20)
+    feats = prog.features.get("abyssiniandb", [])
+    # counted per configuration on the repaired tree: vu64+bitmap 28, vu64 without bitmap 26, fixed-width fields + bitmap 25
+    floor = 28 if ("vf_vu64" in feats and "htx_bitmap" in feats) else (26 if "vf_vu64" in feats else 25)
+    ctx.floor("unsigned-sub", "unsigned subtraction sites in the lib", n, floor)
     ctx.sample({"rule": "unsigned-sub", "classification": classes})
     # preconditions of triage entries
     if "tables-nonempty" in pre_needed:
